@@ -60,6 +60,18 @@ CHECKS['C20'] = dict(
     text='read_client_conf() is compared with a small reference resolver over the complete presence product (3 environment variables x candidate-file layouts x key subsets x location kinds) inside a sandbox HOME; an audit hook (sys.addaudithook) records which candidate files are opened; default_face is checked over supported and unsupported URIs, default_keychain over resolved locations.',
     design_ref='DESIGN.md 3/C20', technique='runtime differential monitor against a reference resolver + audit-hook file-access monitor over an enumerated configuration space',
     note='the platform candidate path list is redirected into the sandbox by a harness wrapper; values with % / several colons are outside the generated domain.')
+CHECKS['C11'] = dict(
+    text='Generated schemas (programs) are printed from the generator-owned AST, compiled by the real compiler and queried through Checker.match (direct and after save/load) on all names up to a length bound over an alphabet hitting every literal (bounded-exhaustive per schema, sampled above a limit); results are compared with a reference interpreter of the documented semantics working on the AST; reach counters for the compiler passes and a step budget on queries.',
+    design_ref='DESIGN.md 3/C11', technique='runtime differential monitor: real compiler+checker vs reference interpreter over generated programs and enumerated inputs',
+    note='interior tree nodes (#_<id>) are filtered; constraints only refer to patterns of the rule or of rules it references; schemas with > 120 alternatives skipped.')
+CHECKS['C12'] = dict(
+    text='Checker.check on compiled level-structured schemas with signing relations is compared with the reference interpreter for targeted pairs (packet matching a signed rule x key matching one of its signers) and random pairs incl. near misses, each also with a trailing implicit digest on either side.',
+    design_ref='DESIGN.md 3/C12', technique='runtime differential monitor against a reference interpreter over generated schemas and name pairs',
+    note='schemas are level-structured so that no name pattern is its own signer.')
+CHECKS['C13'] = dict(
+    text='Clean generated schemas must compile and load; the same schemas with one injected static error of each kind at every position must raise SemanticError; every single-field corruption of compiled models is loaded and an independent re-check of the six documented sanity rules decides whether LvsModelError is demanded; accepted models are queried under an interpreter-step budget (sys.monitoring) to decide termination.',
+    design_ref='DESIGN.md 3/C13', technique='fault injection (static errors, model corruption) with an independent sanity-rule oracle and sys.monitoring step budgets for termination',
+    note='termination = bounded interpreter events; corruptions outside the documented rules need not be rejected.', level='fault_enumeration')
 _ALL = ['C%02d' % i for i in range(1, 21)]
 for _p in _ALL:
     if _p not in CHECKS:
